@@ -74,11 +74,21 @@ func (it *memIterator) Prev() {
 	it.memit.Prev()
 }
 
+// Seek and SeekForPrev clamp the target to the iterator bounds, so that the
+// iterator is never positioned on a key outside of them.
 func (it *memIterator) Seek(key []byte) {
+	if it.lowerBound != nil && bytes.Compare(key, it.lowerBound) < 0 {
+		key = it.lowerBound
+	}
 	it.memit.Seek(key)
 }
 
 func (it *memIterator) SeekForPrev(key []byte) {
+	if it.upperBound != nil && bytes.Compare(key, it.upperBound) >= 0 {
+		// upper bound is exclusive
+		it.SeekToLast()
+		return
+	}
 	it.memit.SeekForPrev(key)
 }
 
